@@ -122,6 +122,23 @@ class Exec:
         self.solver_s += time.time() - t0
         return v.as_long() if r2 == unsat else None
 
+    def check_posts(self, posts, pc):
+        """Decide a list of (label, postcondition) on the current path with one combined query; only if some postcondition can
+        fail are they decided one by one.  Returns [(label, post, model)] for the violated ones."""
+        posts = [(l, p) for l, p in posts]
+        if not posts: return []
+        neg = Or(*[Not(p) for _, p in posts]) if len(posts) > 1 else Not(posts[0][1])
+        if self.model(neg) is None:
+            self.record_formula('all of: ' + ' | '.join(sorted(set(l for l, _ in posts)))[:300], pc, neg)
+            self.n_recorded = getattr(self, 'n_recorded', 0) + len(posts) - 1
+            return []
+        out = []
+        for l, p in posts:
+            self.record_formula(l, pc, Not(p))
+            m = self.model(Not(p))
+            if m is not None: out.append((l, p, m))
+        return out
+
     def record_formula(self, label, pc, negpost):
         self.n_recorded = getattr(self, 'n_recorded', 0) + 1
         if len(self.formulas) < 4000:
